@@ -181,3 +181,10 @@ pub mod mpsc {
 }
 pub use mpsc::Receiver;
 pub use mpsc::Sender;
+
+// ---- core::mem helpers (library/core/src/mem/mod.rs) ----
+pub uninterp spec fn default_spec<T>() -> T;
+pub broadcast axiom fn default_bool() ensures #[trigger] default_spec::<bool>() == false;
+pub broadcast axiom fn default_usize() ensures #[trigger] default_spec::<usize>() == 0usize;
+pub assume_specification<T: Default> [core::mem::take] (dest: &mut T) -> (r: T) ensures r == *old(dest), *final(dest) == default_spec::<T>();
+pub assume_specification<T> [core::mem::replace] (dest: &mut T, src: T) -> (r: T) ensures r == *old(dest), *final(dest) == src;
